@@ -97,6 +97,18 @@ pub struct Run {
     /// ledger: only PayFunding may move it; the oracles measure funding owed against this value,
     /// not against whatever the engine reports at the time)
     pub cum_ledger: Vec<Integer>,
+    /// life-time ledger of a position (C04): wallet balance when the trader was last flat, the
+    /// quote reserve changes and the fees its owner's own trades caused since, and whether the
+    /// ledger is still meaningful (no funding settlement, liquidation or bad debt in between)
+    pub life: BTreeMap<(usize, &'static str), Life>,
+}
+
+#[derive(Clone)]
+pub struct Life {
+    pub wallet_start: Uint128,
+    pub dx: SInt,
+    pub fees: SInt,
+    pub valid: bool,
 }
 
 pub fn deploy_or_drop(cfg: Cfg) -> World {
@@ -113,7 +125,7 @@ impl Run {
     pub fn new(cfg: Cfg, mon: Mon) -> Run {
         let w = deploy_or_drop(cfg);
         let cum_ledger = (0..w.vamms.len()).map(|i| if w.cfg.vamm_engine_is_owner { Integer::zero() } else { w.cum_premium(i) }).collect();
-        Run { w, mon, vi: 0, steps: 0, fault: None, charged_at: BTreeMap::new(), funding_settled: false, cum_ledger }
+        Run { w, mon, vi: 0, steps: 0, fault: None, charged_at: BTreeMap::new(), funding_settled: false, cum_ledger, life: BTreeMap::new() }
     }
     pub fn snap(&self) -> Snap {
         let w = &self.w;
@@ -178,6 +190,7 @@ impl Run {
         let rec = StepRec { op, pre, post, tx, what, obs };
         self.monitors(&rec);
         crate::oracle::step_oracle(self, &rec);
+        self.life_step(&rec);
         // funding ledger: which cumulative fraction the sender's position is settled up to
         if rec.tx.ok && matches!(rec.op, Op::PayFunding { .. }) {
             self.funding_settled = true;
@@ -193,6 +206,54 @@ impl Run {
             }
         }
         rec
+    }
+
+    /// C04 life-time ledger and its obligation: over a complete round trip (flat -> ... -> flat,
+    /// through any number of increases, reductions and partial closes) the trader's wallet changes
+    /// by exactly minus the quote its own trades moved into the vAMM, minus the fees it was charged
+    fn life_step(&mut self, rec: &StepRec) {
+        if self.mon.prop != "C04" || self.w.attach.is_some() {
+            return;
+        }
+        let vi = self.vi;
+        match &rec.op {
+            Op::PayFunding { .. } if rec.tx.ok => {
+                for l in self.life.values_mut() {
+                    l.valid = false;
+                }
+            }
+            Op::Liquidate { trader, .. } if rec.tx.ok => {
+                if let Some(l) = self.life.get_mut(&(vi, *trader)) {
+                    l.valid = false;
+                }
+            }
+            Op::Open { who, .. } | Op::Close { who, .. } if rec.tx.ok => {
+                let key = (vi, *who);
+                let was_flat = rec.pre.pos[&key].as_ref().map(|p| p.size.value.is_zero()).unwrap_or(true);
+                if was_flat {
+                    self.life.insert(key, Life { wallet_start: rec.pre.bal[*who], dx: SInt::zero(), fees: SInt::zero(), valid: true });
+                }
+                let bad_debt_moved = !symrt::decide(s(rec.pre.eng.bad_debt).eq(s(rec.post.eng.bad_debt)));
+                let dx = s(rec.post.vamm[vi].quote_asset_reserve).sub(s(rec.pre.vamm[vi].quote_asset_reserve));
+                let fee = s(rec.post.bal["fee_pool"]).sub(s(rec.pre.bal["fee_pool"])).add(s(rec.post.bal["insurance_fund"]).sub(s(rec.pre.bal["insurance_fund"])));
+                if let Some(l) = self.life.get_mut(&key) {
+                    l.dx = l.dx.add(dx);
+                    l.fees = l.fees.add(fee);
+                    if bad_debt_moved {
+                        l.valid = false;
+                    }
+                    let now_flat = rec.post.pos[&key].as_ref().map(|p| p.size.value.is_zero()).unwrap_or(true);
+                    if now_flat && l.valid {
+                        let wallet = s(rec.post.bal[*who]).sub(s(l.wallet_start));
+                        prove_d("C04/round-trip-pays-what-the-vamm-exchanged-minus-fees", wallet.eq(l.dx.neg().sub(l.fees)), format!("{} trader={}", rec.what, who));
+                    }
+                    if now_flat {
+                        self.life.remove(&key);
+                    }
+                }
+            }
+            _ => {}
+        }
     }
 
     fn monitors(&self, r: &StepRec) {
